@@ -230,7 +230,7 @@ class Emitter:
         if en is not None:
             return CT("int", const=const, cxx=cxx)
         for q, ut in self.ix.typedefs.items():
-            if q == name or q.endswith("::" + name):
+            if q == name or q.endswith("::" + name) or (("<" in q) and name.endswith("::" + q)):
                 r = self.ctype(ut)
                 r.const = r.const or const
                 return r
@@ -251,7 +251,7 @@ class Emitter:
         hits = []
         for q, r in self.ix.records.items():
             qq = q.replace(" ", "")
-            if qq == name or qq.endswith("::" + name):
+            if qq == name or qq.endswith("::" + name) or ("<" in qq and name.endswith("::" + qq)):
                 hits.append((q, r))
         if not hits:
             return None
@@ -306,7 +306,7 @@ class Emitter:
     def func_cname(self, decl):
         q = self.ix.qual.get(decl["id"], decl.get("name"))
         np = len(params_of(decl))
-        sig = decl.get("type", {}).get("qualType", "")
+        sig = decl.get("type", {}).get("qualType", "").replace("opentelemetry::v1::", "").replace("opentelemetry::", "")
         for suf, sub, forced in getattr(self.cfg, "cnames_sig", ()):
             if (q == suf or q.endswith("::" + suf)) and sub in sig:
                 return forced
@@ -326,7 +326,9 @@ class Emitter:
             base = "dtor"
         elif kind == "CXXConversionDecl":
             base = "conv_" + sanitize(name.replace("operator", ""))
-        elif name.startswith("operator") and strip_ns(name.split("<")[0]) in OPNAMES:
+        elif name in OPNAMES:
+            base = OPNAMES[name]
+        elif name.startswith("operator") and strip_ns(name.split("<")[0]) in OPNAMES and name.endswith(">"):
             base = OPNAMES[name.split("<")[0]]
         else:
             base = sanitize(name)
@@ -684,6 +686,12 @@ class Emitter:
             return pad + "default:\n" + self.stmt(n["inner"][0], ind + 1)
         if k == "CXXTryStmt":
             raise ExtractionError("try/catch not supported")
+        if getattr(self.cfg, "throw_mode", "unreachable") == "record" and self._is_throw_stmt(n):
+            self.report["throw / std::terminate turned into a recorded abrupt exit (g_thrown)"] += 1
+            rt = self.cur["rt"]
+            if rt.text() == "void":
+                return pad + "{ g_thrown = 1; return; }"
+            return pad + "{ g_thrown = 1; %s; return xc_r; }" % rt.decl("xc_r")
         if k == "ExprWithCleanups" or k.endswith("Expr") or k.endswith("Operator") or k.endswith("Literal"):
             if self.is_dropped_call(n):
                 self.report["dropped statements (logging / instrumentation)"] += 1
@@ -693,6 +701,15 @@ class Emitter:
                 return ""
             return pad + e + ";"
         raise ExtractionError("unsupported statement kind %s" % k)
+
+    def _is_throw_stmt(self, n):
+        while n.get("kind") in ("ExprWithCleanups", "ParenExpr"):
+            n = n["inner"][0]
+        if n.get("kind") == "CXXThrowExpr":
+            return True
+        if n.get("kind") == "CallExpr":
+            return self._callee_name(n["inner"][0]) == "terminate"
+        return False
 
     def block(self, n, ind, prepend=""):
         if n is None or not n.get("kind"):
@@ -967,7 +984,7 @@ class Emitter:
                 # variable outside the dumped namespace (std::) - via ext table
                 h = self.cfg.ext.get("var:" + r["name"])
                 if h:
-                    return h
+                    return h(self, n) if callable(h) else h
                 raise ExtractionError("reference to unindexed variable %s" % r["name"])
             return r["name"]
         if rk == "EnumConstantDecl":
